@@ -528,6 +528,36 @@ func runScenario(ctx *core.Ctx, bin string, idx int, sc scenario) {
 	}
 	ctx.Count("converged", 1)
 	ctx.Count("objects_compared", int64(ld.NObjects()))
+	// a copy stays a copy: clients of the caught-up follower try to write, directly and through
+	// every script variant; whatever the follower answers, its dataset must still equal the leader's
+	if fc, err := dial(follower); err == nil {
+		setScript := `return tile38.call('set', 'intruder', ARGV[1], 'point', 1, 2)`
+		delScript := `tile38.call('drop', 'intruder') return tile38.call('flushdb')`
+		attempts := [][]string{
+			{"SET", "intruder", "direct", "POINT", "1", "2"}, {"FLUSHDB"},
+			{"EVAL", setScript, "0", "eval"}, {"EVALNA", setScript, "0", "evalna"}, {"EVALRO", setScript, "0", "evalro"},
+			{"EVALNA", delScript, "0"}, {"EVAL", delScript, "0"},
+			{"SETCHAN", "intruderchan", "NEARBY", "intruder", "FENCE", "POINT", "1", "2", "100"},
+			{"JSET", "intruder", "doc", "a", "1"}, {"EXPIRE", "intruder", "direct", "1"},
+		}
+		if sha, err := fc.Do("SCRIPT", "LOAD", setScript); err == nil && !sha.IsErr() {
+			attempts = append(attempts, []string{"EVALSHA", sha.Str, "0", "evalsha"}, []string{"EVALNASHA", sha.Str, "0", "evalnasha"})
+		}
+		for _, a := range attempts {
+			fc.Do(a...)
+		}
+		fc.Close()
+		ctx.Count("follower_write_attempts", int64(len(attempts)))
+		l2, e1 := dump.Take(leader.Addr(), dump.Opts{})
+		f2, e2 := dump.Take(follower.Addr(), dump.Opts{})
+		if e1 == nil && e2 == nil {
+			ctx.Eval(1)
+			if d := dump.Diff(l2, f2); d != "" {
+				ctx.Violation("follower-changed-by-client", "after clients sent data-modifying commands and scripts to the caught-up follower it is no longer a copy of its quiescent leader (A=leader B=follower): "+d+" ["+sc.key()+"]", replay)
+				return
+			}
+		}
+	}
 	if len(sc.faults) > 0 || sc.initial != "empty" {
 		ctx.Distinct(sc.key())
 	}
